@@ -34,6 +34,10 @@ def bootstrap_repo():
     deps = os.path.join(VERIF, ".deps")
     if os.path.isdir(deps) and deps not in sys.path:
         sys.path.append(deps)
+    if os.environ.get("PMV_C_SO"):
+        # C configuration (C15): serve pyModeS.c_common from the sanitised build before pyModeS is imported
+        from . import cbuild
+        cbuild.install_finder(os.environ["PMV_C_SO"])
     import pyModeS  # noqa
 
     f = os.path.realpath(pyModeS.__file__)
